@@ -57,7 +57,9 @@ pub struct SynCase {
     /// cells are "padding" positions - they are cells of the matrix all the same
     #[serde(default)]
     pub short_by: usize,
-    /// 0 = the column count given by `wide`; 1 = 48 columns, 2 = 64 columns (generic and SSE2 backends only)
+    /// 0 = the column count given by `wide`; 1 = 48 columns, 2 = 64 columns (generic and SSE2 backends only);
+    /// 3..=7 = 1, 4, 7, 12, 20 columns (generic pipeline only: the layouts of targets without a vector unit, and
+    /// column counts that are not a multiple of 8)
     #[serde(default)]
     pub wider: u8,
     /// f32 only: every finite cell (and the threshold) is replaced by a subnormal number of the same sign and
@@ -160,7 +162,7 @@ fn syn_strategy(tier: Tier) -> BoxedStrategy<SynCase> {
         thr,
         prior,
         short,
-        prop_oneof![10 => Just(0u8), 1 => Just(1u8), 1 => Just(2u8)],
+        prop_oneof![10 => Just(0u8), 1 => Just(1u8), 1 => Just(2u8), 2 => 3u8..=7],
         prop_oneof![4 => Just(false), 1 => Just(true)],
         prop_oneof![3 => Just(0u8), 2 => 1u8..=6],
     )
@@ -432,6 +434,22 @@ where
     None
 }
 
+fn run_syn_generic<T, C>(cells: &[Vec<T>], t: T, prior: Option<(usize, T)>, short_by: usize, info: &mut CaseInfo) -> Option<Failure>
+where
+    T: MatrixElement + PartialOrd + std::fmt::Debug + OrdKey,
+    C: PositiveLength,
+    Pipeline<Dna, lightmotif::pli::platform::Generic>: Maximum<T, C> + Threshold<T, C>,
+    Pipeline<Protein, lightmotif::pli::platform::Generic>: Maximum<T, C> + Threshold<T, C>,
+{
+    let s = build_scores::<T, C>(cells, prior, short_by);
+    for r in [report("generic", &Pipeline::<Dna, _>::generic(), &s, t), report("generic[protein]", &Pipeline::<Protein, _>::generic(), &s, t)] {
+        if let Some(f) = judge(cells, C::USIZE, t, &r, info) {
+            return Some(f);
+        }
+    }
+    None
+}
+
 fn run_syn_wide<T>(cells: &[Vec<T>], t: T, prior: Option<(usize, T)>, short_by: usize, info: &mut CaseInfo) -> Option<Failure>
 where
     T: MatrixElement + PartialOrd + std::fmt::Debug + OrdKey,
@@ -482,7 +500,7 @@ impl Sub for Synthetic {
         "synthetic"
     }
     fn rule(&self) -> &'static str {
-        "StripedScores<f32|u8> with 16 or 32 (and, 1 case in 6, 48 or 64) columns built cell by cell, half of them in a buffer that first held 1..80 more rows of the largest value and was resized down, and three in five with a max_index smaller than rows x C (explicit / seeded incl. all-negative, few-valued / spikes incl. +-inf, duplicated maxima; one f32 case in five with every finite cell and the threshold replaced by a subnormal number of the same sign and order), two in five examined right after the same thread scored something else (a sequence shorter than the motif, an empty row range, an ordinary sequence; AVX2, dispatcher, SSE2), x threshold (a cell value, between two values, below min, above max, arbitrary); generic, sse2, avx2, dispatch forced to each arm, StripedScores::{max,argmax,threshold} and Scores::{max,argmax,threshold} compared with a scan of all cells that orders the values by bit pattern (independent of the floating-point control state of the thread); sweep = one spike at every column x rows {1,2,3,33} x both dtypes x {all-negative, zero} base; non-trivial = rows >= 2 and (maximum outside row 0 / column 0, or every cell negative, or duplicated maximum)"
+        "StripedScores<f32|u8> with 16 or 32 (and, 1 case in 6, 48 or 64, 1 case in 7, 1 / 4 / 7 / 12 / 20 - generic pipeline only) columns built cell by cell, half of them in a buffer that first held 1..80 more rows of the largest value and was resized down, and three in five with a max_index smaller than rows x C (explicit / seeded incl. all-negative, few-valued / spikes incl. +-inf, duplicated maxima; one f32 case in five with every finite cell and the threshold replaced by a subnormal number of the same sign and order), two in five examined right after the same thread scored something else (a sequence shorter than the motif, an empty row range, an ordinary sequence; AVX2, dispatcher, SSE2), x threshold (a cell value, between two values, below min, above max, arbitrary); generic, sse2, avx2, dispatch forced to each arm, StripedScores::{max,argmax,threshold} and Scores::{max,argmax,threshold} compared with a scan of all cells that orders the values by bit pattern (independent of the floating-point control state of the thread); sweep = one spike at every column x rows {1,2,3,33} x both dtypes x {all-negative, zero} base; non-trivial = rows >= 2 and (maximum outside row 0 / column 0, or every cell negative, or duplicated maximum)"
     }
     fn cases(&self, tier: Tier) -> u64 {
         tier.pick(150_000, 5_000_000)
@@ -566,6 +584,11 @@ impl Sub for Synthetic {
         let cols = match case.wider {
             1 => 48,
             2 => 64,
+            3 => 1,
+            4 => 4,
+            5 => 7,
+            6 => 12,
+            7 => 20,
             _ => {
                 if case.wide {
                     32
@@ -606,6 +629,11 @@ impl Sub for Synthetic {
                 let f = match case.wider {
                     1 => run_syn::<f32, lightmotif::num::U48>(&cells, thr, false, prior, case.short_by, &mut info),
                     2 => run_syn::<f32, lightmotif::num::U64>(&cells, thr, false, prior, case.short_by, &mut info),
+                    3 => run_syn_generic::<f32, lightmotif::num::U1>(&cells, thr, prior, case.short_by, &mut info),
+                    4 => run_syn_generic::<f32, lightmotif::num::U4>(&cells, thr, prior, case.short_by, &mut info),
+                    5 => run_syn_generic::<f32, lightmotif::num::U7>(&cells, thr, prior, case.short_by, &mut info),
+                    6 => run_syn_generic::<f32, lightmotif::num::U12>(&cells, thr, prior, case.short_by, &mut info),
+                    7 => run_syn_generic::<f32, lightmotif::num::U20>(&cells, thr, prior, case.short_by, &mut info),
                     _ => {
                         if case.wide {
                             run_syn_wide::<f32>(&cells, thr, prior, case.short_by, &mut info)
@@ -652,6 +680,11 @@ impl Sub for Synthetic {
                 match case.wider {
                     1 => run_syn::<u8, lightmotif::num::U48>(&cells8, t8, false, prior, case.short_by, &mut info),
                     2 => run_syn::<u8, lightmotif::num::U64>(&cells8, t8, false, prior, case.short_by, &mut info),
+                    3 => run_syn_generic::<u8, lightmotif::num::U1>(&cells8, t8, prior, case.short_by, &mut info),
+                    4 => run_syn_generic::<u8, lightmotif::num::U4>(&cells8, t8, prior, case.short_by, &mut info),
+                    5 => run_syn_generic::<u8, lightmotif::num::U7>(&cells8, t8, prior, case.short_by, &mut info),
+                    6 => run_syn_generic::<u8, lightmotif::num::U12>(&cells8, t8, prior, case.short_by, &mut info),
+                    7 => run_syn_generic::<u8, lightmotif::num::U20>(&cells8, t8, prior, case.short_by, &mut info),
                     _ => {
                         if case.wide {
                             run_syn_wide::<u8>(&cells8, t8, prior, case.short_by, &mut info)
@@ -666,6 +699,7 @@ impl Sub for Synthetic {
         info.class_if(case.wider == 0 && !case.wide, "C=16");
         info.class_if(case.wider == 1, "C=48");
         info.class_if(case.wider == 2, "C=64");
+        info.class_if(case.wider >= 3, "C=1/4/7/12/20(generic-only-layouts)");
         info.class_if(rows == 0, "empty");
         info.class_if(case.prior_rows > 0, "buffer-shrunk-from-a-taller-use");
         info.class_if(case.short_by > 0 && rows > 0, "max_index<rows*C");
